@@ -125,7 +125,8 @@ def make_execution(rng, ctx, idx, nvar):
     if rng.random() < 0.2:
         cfg["compallsen"] = True
     gl, gkind = decmatrix.pick_grammar(rng, ctx, idx, valid_only=True)
-    aud = rng.choice(["gf", "gf", "gf", "cut", "mid", "head", "tail", "rev", "clip", "t4", "t5", "t3", "t2", "t1", "sil", "noise"])
+    aud = rng.choice(["gf", "gf", "gf", "cut", "mid", "head", "tail", "rev", "clip", "t4", "t5", "t3", "t2", "t1", "sil", "noise",
+                      "zhead", "hzh", "hzh"])
     n = decmatrix.AUDIO_LEN[aud]
     s = list(decmatrix.audio_defs())
     s += ["mark ref", "init " + decmatrix.hx(json.dumps(cfg))] + gl + ["cmn " + decmatrix.hx(CMN), "start",
@@ -152,6 +153,15 @@ def model_check(ctx, quick):
         if r.distinct < 30:
             raise tlc.ModelError("vacuous: only %d states explored in %s" % (r.distinct, cfg))
         rep.add_tlc("MC_AcmodPipe.tla/" + cfg, r)
+    # two utterances, the first possibly a full-utterance call that enlarges the cepstrum ring for good
+    r = tlc.run("MC_AcmodPipe.tla", "AcmodPipe_two.cfg", SPEC, workers=8, timeout=1200, heap="8g")
+    if r.violated:
+        raise tlc.ModelError("AcmodPipeImpl violates %s in AcmodPipe_two.cfg:\n%s" % (r.violated, r.out[-2500:]))
+    rep.add_tlc("MC_AcmodPipe.tla/AcmodPipe_two.cfg", r)
+    r = tlc.run("MC_AcmodPipe.tla", "AcmodPipe_nocap.cfg", SPEC, workers=4, timeout=600)
+    if not r.violated:
+        raise tlc.ModelError("negative control failed: an enlarged ring without the per-call cap should lose frames")
+    rep.notes["negative_control_ring"] = "AcmodPipe_nocap.cfg (streaming call fills a ring enlarged by a full-utterance call) violates %s as expected" % r.violated
     r = tlc.run("MC_AcmodPipe.tla", "AcmodPipe_aswas.cfg", SPEC, workers=4, timeout=600)
     if r.violated not in ("CompleteAtEnd", "SearchedAreWindows"):
         raise tlc.ModelError("negative control failed: the pre-fix STARTED handling should violate the window invariants, got %s" % r.violated)
